@@ -176,6 +176,14 @@ func (s *trSuite) run(label string, steps []tStep) {
 					fail("C16", "event-for-wrong-channel:"+st.Kind, "a callback was reported for a channel that does not own the request")
 				}
 			}
+			// a data-transfer message riding on a graphsync request is reported only for the channel it names, and
+			// that is the channel owning the request
+			for _, c := range o.Calls {
+				if (c.Name == "HRequestReceived" || c.Name == "HResponseReceived") && c.Msg != nil && c.Msg.Tid != c.K.Tid {
+					fail("C16", "message-of-another-transfer-reported:"+st.Kind, "a data-transfer message naming another transfer was reported for the channel that owns the graphsync request it arrived on")
+					fail("C05", "message-of-another-transfer-reported:"+st.Kind, "a message naming another transfer was accepted on this channel's graphsync request: the sender can cancel / complete / fail a channel its message does not name")
+				}
+			}
 			// C11: when the events handler answers "stay paused" (ErrPause) to a message of the counterparty,
 			// the transport must keep the request paused, not terminate it
 			if (st.Kind == "gincomingresponse" || st.Kind == "gupdated") && known && o.Term {
@@ -217,6 +225,14 @@ func (s *trSuite) run(label string, steps []tStep) {
 					if len(o.Calls) != 1 || o.Calls[0].Name != "HChannelCompleted" || o.Calls[0].Failed != (st.Status != 0) {
 						fail("C16", "completion-report", "a completed response was not reported exactly once with an error iff it did not complete in full")
 					}
+				}
+			}
+		case "grecverror":
+			// C05 / C16: a receive error on the connection to peer P concerns the channels with P, nobody else's
+			for _, c := range o.Calls {
+				if c.K.Init != st.P && c.K.Resp != st.P {
+					fail("C05", "receive-error-of-another-peer-hits-channel", "a network receive error caused by one peer was reported for a channel that peer is no party to")
+					fail("C16", "receive-error-of-another-peer-hits-channel", "a network receive error was reported for a channel whose counterparty is not the peer the error came from")
 				}
 			}
 		case "pause", "resume", "close":
@@ -343,6 +359,45 @@ func runTransport(dir string, seed uint64, tier string) {
 			}
 		}
 	}
+	// (b3) pausing / resuming while graphsync's response goroutine is running one of our hooks for the same
+	// channel (the requester cancelled, or sent the channel's next request): graphsync answers Pause / Unpause
+	// from that very goroutine, so the call must not hold anything the hook needs
+	for _, op := range []string{"PauseChannel", "ResumeChannel"} {
+		for _, hookKind := range []string{"requestor-cancelled", "next-request"} {
+			rig := newTrRig(s.res, 1)
+			rig.exec(inc)
+			rig.mu.Lock()
+			rig.gs.beforeCancel = func(id graphsync.RequestID) {
+				if hookKind == "requestor-cancelled" {
+					if l := rig.gs.RequestorCancelledListener; l != nil {
+						l(peerOf(2), testharness.NewFakeRequest(id, nil, graphsync.RequestTypeNew))
+					}
+					return
+				}
+				m := restartReq(6, true)
+				rig.deliverIncomingRequest(2, 7, &m)
+			}
+			rig.mu.Unlock()
+			done := make(chan struct{})
+			go func() {
+				defer close(done)
+				if op == "PauseChannel" {
+					_ = rig.tr.PauseChannel(context.Background(), rig.chidReal(kr))
+				} else {
+					_ = rig.tr.ResumeChannel(context.Background(), nil, rig.chidReal(kr))
+				}
+			}()
+			select {
+			case <-done:
+			case <-time.After(3 * time.Second):
+				for _, prop := range []string{"C20", "C16"} {
+					s.res.fail(monitorFailure{Property: prop, CaseID: 0, Signature: "transport-call-deadlocks-with-hook:" + op + ":" + hookKind,
+						What:  op + " did not return within 3s: it holds the channel's lock while waiting for graphsync, whose response goroutine is running the " + hookKind + " hook for the same channel and waits for that lock",
+						Input: "incoming request, then " + op + " while graphsync delivers " + hookKind + " before answering"})
+				}
+			}
+		}
+	}
 	// (c) generated callback sequences over several channels and requests, cleanup anywhere
 	n := 250
 	if tier == "thorough" {
@@ -365,6 +420,13 @@ func genTransportWalk(r *rng) []tStep {
 		rids []uint64
 	}
 	var chans []*ch
+	tidsOf := func() []uint64 {
+		var out []uint64
+		for _, c := range chans {
+			out = append(out, c.k.Tid)
+		}
+		return out
+	}
 	nextOut := uint64(100)
 	nextIn := uint64(1)
 	ans := func() []hAns {
@@ -464,6 +526,9 @@ func genTransportWalk(r *rng) []tStep {
 				x := respOf(mtUpdate, c.k.Tid, false, true)
 				m = &x
 			}
+			if m != nil && r.chance(15) {
+				m.Tid = otherTid(tidsOf(), c.k.Tid, r) // a message of another transfer on this channel's request
+			}
 			st = tStep{Kind: "gupdated", P: peerTok, Rid: rid, Msg: m}
 		case x < 64:
 			var m1, m2 *msgSpec
@@ -478,6 +543,12 @@ func genTransportWalk(r *rng) []tStep {
 			if r.chance(10) {
 				x := reqOf(mtUpdate, c.k.Tid)
 				m1 = &x
+			}
+			if m1 != nil && r.chance(15) {
+				m1.Tid = otherTid(tidsOf(), c.k.Tid, r)
+			}
+			if m2 != nil && r.chance(15) {
+				m2.Tid = otherTid(tidsOf(), c.k.Tid, r)
 			}
 			st = tStep{Kind: "gincomingresponse", P: peerTok, Rid: rid, Msg: m1, M2: m2}
 		case x < 68:
@@ -558,4 +629,18 @@ func genTransportWalk(r *rng) []tStep {
 		steps = append(steps, st)
 	}
 	return steps
+}
+
+// otherTid picks the transfer id of another tracked channel if there is one, else the next id
+func otherTid(tids []uint64, tid uint64, r *rng) uint64 {
+	var others []uint64
+	for _, t := range tids {
+		if t != tid {
+			others = append(others, t)
+		}
+	}
+	if len(others) > 0 && r.chance(70) {
+		return others[r.intn(len(others))]
+	}
+	return tid + 1
 }
